@@ -2,7 +2,8 @@
     Map / Map2 / MapN node or the cutoff function of a cutoff node returns an error or panics --
     in a parallel pass in which binds may swap.
 
-    (Plans with one fault: the parallel stabilizer keeps the FIRST error of a height block, so
+    (ANY number of faults, and var writes besides: C07_binds_parallel_multi_fault.v, which subsumes
+    this file.  Here: plans with one fault: the parallel stabilizer keeps the FIRST error of a height block, so
     with two faults the returned error depends on the order inside the block, par-prover's
     C04_error_depends_on_order.  Faults of bind functions are outside [op_clean] for
     ParStabilize, [par_plan_clean].)
